@@ -387,6 +387,15 @@ def _(c, m, x):
     s_, sv = lin(c, x, 2, "sc")
     return rsome.pexp(e, s_.reshape((2, 1))) <= r, lambda xv, aux: p_and(*[K(ev(xv)[i], rv(xv)[i, j], sv(xv)[i]) for i in range(2) for j in range(2)])
 
+@case("expcone with an array on the large side")
+def _(c, m, x):
+    e, ev = lin(c, x, 2, "in")
+    r, rv = _rhs(c, x, (2,))
+    s_, sv = lin(c, x, 2, "sc")
+    # z*exp(x/z) <= y for EVERY entry of the array y (x and z scalars)
+    return rsome.expcone(r, e[0], s_[1]), lambda xv, aux: p_and(*[K(ev(xv)[0], rv(xv)[j], sv(xv)[1]) for j in range(2)])
+
+
 @case("entropy", exact=False)
 def _(c, m, x):
     e, ev = lin(c, x, 2, "in")
